@@ -32,9 +32,7 @@ theorem C01_kernel_align (val a : Int) (hv : 0 ≤ val) (ha : 0 < a) (hov : val 
   have h3 := Int.emod_nonneg (a - val % a) (show a ≠ 0 by omega)
   have h4 := Int.emod_lt_of_pos (a - val % a) ha
   unfold align
-  have e1 : (a - val % a) % 18446744073709551616 = a - val % a := Int.emod_eq_of_lt (by omega) (by omega)
-  rw [e1]
-  exact Int.emod_eq_of_lt (by omega) (by omega)
+  simp (disch := omega) only [Int.emod_eq_of_lt] <;> first | rfl | omega | (ring_nf; done)
 
 /-- `align` rounds up to the next multiple -/
 theorem C01_align_spec (val a : Int) (hv : 0 ≤ val) (ha : 0 < a) (hov : val + a < SZ) :
@@ -64,10 +62,9 @@ theorem C01_kernel_row_size (w ms b2m a : Int) (hw : 0 ≤ w * ms) (hb : 0 < b2m
     row_size_in_memunits w ms b2m a = if a > 0 then align (w * ms) (a * b2m) else w * ms := by
   unfold row_size_in_memunits
   have hab : 0 ≤ a * b2m := Int.mul_nonneg ha (by omega)
-  have e1 : w * ms % 18446744073709551616 = w * ms := Int.emod_eq_of_lt hw (by omega)
-  have e2 : b2m % 18446744073709551616 = b2m := Int.emod_eq_of_lt (by omega) hb'
-  have e3 : a * b2m % 18446744073709551616 = a * b2m := Int.emod_eq_of_lt hab (by omega)
-  simp only [e1, e2, e3]
+  have hc1 : b2m * a = a * b2m := by ring
+  have hc2 : ms * w = w * ms := by ring
+  simp (disch := omega) only [Int.emod_eq_of_lt, hc1, hc2] <;> first | rfl | (split_ifs <;> first | rfl | omega | (ring_nf; done))
 
 /-- the row holds the pixels and, with an alignment, is a multiple of it -/
 theorem C01_row_spec (w ms b2m a : Int) (hw : 0 ≤ w * ms) (hb : 0 < b2m) (ha : 0 ≤ a)
@@ -89,21 +86,12 @@ theorem C01_kernel_total_interleaved (w h ms b2m a nch row : Int) (hrow : row_si
   unfold total_bytes_interleaved
   rw [hrow]
   have hrh : 0 ≤ row * h := Int.mul_nonneg hr hh
-  have e0 : h % 18446744073709551616 = h := Int.emod_eq_of_lt hh (by omega)
-  have e2 : b2m % 18446744073709551616 = b2m := Int.emod_eq_of_lt (by omega) (by omega)
-  have e1 : row * h % 18446744073709551616 = row * h := Int.emod_eq_of_lt hrh (by omega)
-  simp only [e0, e1, e2]
-  have e3 : (row * h + b2m) % 18446744073709551616 = row * h + b2m := Int.emod_eq_of_lt (by omega) (by omega)
-  have e4 : (row * h + b2m - 1) % 18446744073709551616 = row * h + b2m - 1 := Int.emod_eq_of_lt (by omega) (by omega)
   have hq0 : 0 ≤ (row * h + b2m - 1) / b2m := Int.ediv_nonneg (by omega) (by omega)
   have hq1 : (row * h + b2m - 1) / b2m ≤ row * h + b2m - 1 := Int.ediv_le_self _ (by omega)
-  rw [e3, e4]
-  by_cases h0 : a > 0
-  · simp only [h0, if_true]
-    rw [Int.emod_eq_of_lt (show 0 ≤ a - 1 by omega) (by omega)]
-    exact Int.emod_eq_of_lt (by omega) (by omega)
-  · simp only [h0, if_false]
-    exact Int.emod_eq_of_lt (by omega) (by omega)
+  have hc : b2m + row * h - 1 = row * h + b2m - 1 := by ring
+  have hc' : h * row = row * h := by ring
+  simp (disch := omega) only [Int.emod_eq_of_lt, hc, hc'] <;>
+    (split_ifs <;> simp (disch := omega) only [Int.emod_eq_of_lt, hc, hc'] <;> first | rfl | omega)
 
 /-- planar: the same with `nch` planes -/
 theorem C01_kernel_total_planar (w h ms b2m a nch row : Int) (hrow : row_size_in_memunits w ms b2m a = row)
@@ -113,22 +101,13 @@ theorem C01_kernel_total_planar (w h ms b2m a nch row : Int) (hrow : row_size_in
   rw [hrow]
   have hrh : 0 ≤ row * h := Int.mul_nonneg hr hh
   have hrhn : 0 ≤ row * h * nch := Int.mul_nonneg hrh hn
-  have e0 : h % 18446744073709551616 = h := Int.emod_eq_of_lt hh (by omega)
-  have e2 : b2m % 18446744073709551616 = b2m := Int.emod_eq_of_lt (by omega) (by omega)
-  have e1 : row * h % 18446744073709551616 = row * h := Int.emod_eq_of_lt hrh (by omega)
-  have e1' : row * h * nch % 18446744073709551616 = row * h * nch := Int.emod_eq_of_lt hrhn (by omega)
-  simp only [e0, e1, e1', e2]
-  have e3 : (row * h * nch + b2m) % 18446744073709551616 = row * h * nch + b2m := Int.emod_eq_of_lt (by omega) (by omega)
-  have e4 : (row * h * nch + b2m - 1) % 18446744073709551616 = row * h * nch + b2m - 1 := Int.emod_eq_of_lt (by omega) (by omega)
   have hq0 : 0 ≤ (row * h * nch + b2m - 1) / b2m := Int.ediv_nonneg (by omega) (by omega)
   have hq1 : (row * h * nch + b2m - 1) / b2m ≤ row * h * nch + b2m - 1 := Int.ediv_le_self _ (by omega)
-  rw [e3, e4]
-  by_cases h0 : a > 0
-  · simp only [h0, if_true]
-    rw [Int.emod_eq_of_lt (show 0 ≤ a - 1 by omega) (by omega)]
-    exact Int.emod_eq_of_lt (by omega) (by omega)
-  · simp only [h0, if_false]
-    exact Int.emod_eq_of_lt (by omega) (by omega)
+  have hc : b2m + row * h * nch - 1 = row * h * nch + b2m - 1 := by ring
+  have hc' : h * row = row * h := by ring
+  have hc'' : nch * (row * h) = row * h * nch := by ring
+  simp (disch := omega) only [Int.emod_eq_of_lt, hc, hc', hc''] <;>
+    (split_ifs <;> simp (disch := omega) only [Int.emod_eq_of_lt, hc, hc', hc''] <;> first | rfl | omega)
 
 /-- `packed_dynamic_channel_reference::data_size()` (both constness variants): the bytes that hold
     bits `[first_bit, first_bit + NumBits)`, capped by the bit field size -/
